@@ -98,13 +98,14 @@ type entry struct {
 }
 
 type tcase struct {
-	prop  string
-	judge bool
-	cwd   string // relative to the sandbox root
-	amb   [][2]string
-	dot   [][2]string
-	tree  []entry
-	stmts []stmt
+	nested bool
+	prop   string
+	judge  bool
+	cwd    string // relative to the sandbox root
+	amb    [][2]string
+	dot    [][2]string
+	tree   []entry
+	stmts  []stmt
 }
 
 func (tc *tcase) encode() string {
@@ -400,7 +401,11 @@ func (tc *tcase) spokfile(root string) string {
 				}
 				fmt.Fprintf(&b, "%s := join(%s)\n", s.d.name, quoteList(as))
 			case "X":
-				fmt.Fprintf(&b, "%s := exec(%s)\n", s.d.name, quoteList(s.d.args))
+				var as []string
+				for _, a := range s.d.args {
+					as = append(as, sub(a))
+				}
+				fmt.Fprintf(&b, "%s := exec(%s)\n", s.d.name, quoteList(as))
 			}
 			continue
 		}
@@ -645,6 +650,8 @@ func workC13(tc *tcase) string {
 	env := tc.environ(root)
 	cwd := filepath.Join(root, tc.cwd)
 
+	counter := filepath.Join(root, homeRel, "cnt")
+	_ = os.Remove(counter) // the call counter of counterCmd starts afresh in every invocation
 	rv := runSpok(root, cwd, env, "--vars")
 	load := "ok"
 	vars := "0"
@@ -687,6 +694,7 @@ func workC13(tc *tcase) string {
 	run := "none"
 	cmds := "0"
 	if load == "ok" && len(names) > 0 {
+		_ = os.Remove(counter)
 		rj := runSpok(root, cwd, env, append([]string{"--json"}, names...)...)
 		switch {
 		case rj.timedOut:
@@ -915,7 +923,11 @@ func (g *gen) c12Random() *tcase {
 		// from a nested directory: a relative variable output is resolved against the cwd
 		tc.cwd = projRel + "/" + g.pick([]string{"sub", "sub/deep", "docs"})
 		tc.tree = append(tc.tree, entry{"d", tc.cwd, ""})
-		tc.judge = false
+		tc.nested = true // judged only if no named output turns out to have a relative value (decided below)
+		if g.chance(0.5) {
+			// the working directory has a `.spok` of its own: the cache that --clean removes is the spokfile's
+			tc.tree = append(tc.tree, entry{"f", tc.cwd + "/.spok/cache.json", "{}"})
+		}
 	}
 	// variables
 	nv := g.rng.Intn(4)
@@ -1046,12 +1058,35 @@ func (g *gen) c12Random() *tcase {
 	}
 	if g.chance(0.2) {
 		t := task{name: "clean", cmds: []command{echoCmd(cleanMarker)}}
+		if g.chance(0.3) {
+			// a clean task that FAILS: it is still run instead of spok's own clean, which then removes nothing
+			t.cmds = []command{{raw: true, src: "echo " + cleanMarker + "; exit 3", stdout: cleanMarker + "\n", status: 3}}
+		}
 		if g.chance(0.5) {
 			t.files = []string{g.pick(litPool)}
 		}
 		pos := g.rng.Intn(len(tc.stmts) + 1)
 		// a task may only reference... outputs are looked up at clean time, position is free
 		tc.stmts = append(tc.stmts[:pos], append([]stmt{{isTask: true, t: t}}, tc.stmts[pos:]...)...)
+	}
+	if tc.nested {
+		// a relative variable value used as a named output is resolved against the working directory: which path "the
+		// designated path" is, is then ambiguous in the property — compared with the model only
+		rel := map[string]bool{}
+		for _, s := range tc.stmts {
+			if !s.isTask && (s.d.kind != "S" || !strings.HasPrefix(s.d.args[0], "/")) {
+				rel[s.d.name] = true
+			}
+		}
+		for _, s := range tc.stmts {
+			if s.isTask {
+				for _, n := range s.t.named {
+					if rel[n] {
+						tc.judge = false
+					}
+				}
+			}
+		}
 	}
 	// unjudged corners
 	r := corner
@@ -1125,6 +1160,15 @@ func c12Singles() []*tcase {
 	}
 	for _, l := range notdirPool {
 		tc := mk(task{files: []string{l, "top.o"}})
+		out = append(out, tc)
+	}
+	for _, l := range []string{"out.txt", "sub", "*.o"} {
+		tc := mk(task{files: []string{l}})
+		if strings.Contains(l, "*") {
+			tc = mk(task{globs: []globOut{{pat: l, hits: refExpand(fullTree, l)}}})
+		}
+		tc.stmts = append(tc.stmts, stmt{isTask: true, t: task{name: "clean",
+			cmds: []command{{raw: true, src: "echo " + cleanMarker + "; exit 3", stdout: cleanMarker + "\n", status: 3}}}})
 		out = append(out, tc)
 	}
 	// every link of the pool as the only extra output, literal and named
@@ -1227,6 +1271,10 @@ type execSample struct {
 	status      int
 }
 
+// counterCmd prints how many times it has been run in this invocation: two variables defined by the very same exec(...)
+// are two evaluations, with two values
+const counterCmd = "echo x >> /S/" + homeRel + "/cnt; /usr/bin/wc -l < /S/" + homeRel + "/cnt"
+
 var execPool = []execSample{
 	{"echo hi", "hi\n", 0},
 	{"echo   spaced   out  ", "spaced out\n", 0},
@@ -1315,6 +1363,16 @@ func (g *gen) c13Random() *tcase {
 	}
 	if g.chance(0.2) && !execFails {
 		decls = append(decls, decl{name: spokNames[0], kind: "S", args: []string{g.value()}})
+	}
+	if len(decls) >= 2 && !execFails && g.chance(0.12) {
+		// the same exec(...) text twice (three times): every occurrence is evaluated on its own, in file order
+		k := 0
+		for i := range decls {
+			if i < 3 && (i < 2 || g.chance(0.5)) {
+				k++
+				decls[i] = decl{name: decls[i].name, kind: "X", args: []string{counterCmd}, stdout: strconv.Itoa(k) + "\n"}
+			}
+		}
 	}
 	// tasks at random positions
 	nt := 1 + g.rng.Intn(2)
@@ -1421,7 +1479,7 @@ func (g *gen) c13Random() *tcase {
 		// and the commands of the exec declarations, to see their raw output
 		if k == 0 {
 			for _, d := range decls {
-				if d.kind == "X" && len(d.args) == 1 && d.status == 0 && !strings.Contains(d.args[0], "{{") {
+				if d.kind == "X" && len(d.args) == 1 && d.status == 0 && !strings.Contains(d.args[0], "{{") && d.args[0] != counterCmd {
 					t.cmds = append(t.cmds, command{raw: true, src: d.args[0], stdout: d.stdout, status: 0})
 				}
 			}
